@@ -163,7 +163,7 @@ func (s e3Shape) render() map[string]string {
 	b.WriteString("  withdir:\n    dir: newdir/sub\n    vars:\n      HERE: {sh: 'pwd'}\n    env:\n      EHERE: {sh: 'pwd'}\n    cmds:\n      - cmd: " + yamlq(`printf 'withdir c1\n' >> "$VERIF_TRACE"`) + "\n")
 	// a task with sources whose sub-call can be made to fail a precondition (read-only modes must not touch its state)
 	b.WriteString("  prefail:\n    preconditions: ['test -f pre.ok']\n    cmds:\n      - cmd: " + yamlq(`printf 'prefail c1\n' >> "$VERIF_TRACE"`) + "\n")
-	b.WriteString(strings.Replace(taskBody("withsub", false), "generates: ['out/gen.txt', 'out/gen2.txt']\n", "", 1))
+	b.WriteString(strings.Replace(taskBody("withsub", false), "    generates: ['out/gen.txt', 'out/gen2.txt']\n", "", 1))
 	b.WriteString("    cmds:\n      - cmd: " + yamlq(`printf 'withsub c1\n' >> "$VERIF_TRACE"`) + "\n      - task: prefail\n")
 	// a parent that runs the task under test next to a failing sibling
 	b.WriteString("  sibling:\n    cmds:\n      - cmd: " + yamlq(`i=0; while [ ! -f spin.started ] && [ $i -lt 30000 ]; do i=$((i+1)); done; exit 1`) + "\n")
@@ -701,6 +701,11 @@ func (st *e3State) step(op e3Op, rng *rand.Rand, part *h.Partial) []e3Verdict {
 		os.Remove(filepath.Join(st.dir, "spin.started"))
 		rec.Exit, rec.F = r.Exit, fNow
 		part.Count("plain_invocations", 1)
+		if r.Exit >= 100 && r.Exit <= 110 {
+			// the generated project does not load: a harness defect, never a verdict
+			part.Count("generated_project_does_not_load", 1)
+			part.Inconc(fmt.Sprintf("generated project did not load (exit %d): %s", r.Exit, h.Truncate(r.Stderr, 200)))
+		}
 		if r.TimedOut {
 			part.Inconc("watchdog on " + op.Kind)
 			st.prevSet = false
@@ -1127,10 +1132,6 @@ func runE3(id string, start time.Time) int {
 			for _, extra := range []struct{ gen, status bool }{{false, false}, {true, false}, {false, true}, {true, true}} {
 				for _, change := range []string{"edit", "touch", "add", "remove", "rename", "move", "edit-unmatched", "del-gen", "status-off", "none"} {
 					for g := range e3Globs {
-						if !h.Thorough() && (i+int(h.Seed()))%3 != 0 {
-							i++
-							continue
-						}
 						s := e3Shape{Method: method, Glob: g, Shape: "plain", NCmds: 2, Gen: extra.gen, Status: extra.status}
 						s.fixNames()
 						ops := []e3Op{{Kind: "run"}, {Kind: "run"}}
@@ -1217,6 +1218,10 @@ func runE3(id string, start time.Time) int {
 				part.Violation(sig, v.what, st.witness(v, map[string]any{"kind": jb.tag, "index": jb.idx}))
 			}
 		}
+		if dbg := os.Getenv("VERIF_E3_DEBUG"); dbg != "" && strings.Contains(fmt.Sprintf("%s gen=%v %v", jb.tag, jb.shape.Gen, jb.ops), dbg) {
+			b, _ := json.Marshal(st.steps)
+			fmt.Printf("DEBUG %s %+v\n  %s\n", jb.tag, jb.shape, b)
+		}
 		part.Count("history_steps", int64(len(jb.ops)))
 		part.Count("histories_"+jb.tag, 1)
 		part.SetAdd("shapes", fmt.Sprintf("%s/%s/%s/gen=%v/status=%v/prompt=%v", jb.shape.Method, jb.shape.Shape, e3Globs[jb.shape.Glob].name, jb.shape.Gen, jb.shape.Status, jb.shape.Prompt))
@@ -1227,13 +1232,17 @@ func runE3(id string, start time.Time) int {
 	var exh *bool
 	rule := map[string]string{
 		"C04": "histories of file operations and CLI invocations (run, failing at command k, --force, prompt declined/--yes, SIGKILL at a command boundary via TASK_VERIF_KILL_AT, cancelled by a failing sibling, --dry, --status, --list[-all] --json, --summary, runs of another task with the same sources incl. colliding state-file names) on generated projects (method x glob shape x task shape x generates/status/prompt); monitor: a skip is legitimate only if the last plain attempt observed for the present fingerprint (computed by the harness from the files it wrote) ran all commands with exit 0 and generates exist. Enumerated: every command-boundary kill point (fp.checked, cmd.before#k, cmd.after#k) and every failing position for bodies of 1..3(4) commands x 2 methods x 5 shapes x generates on/off. A case is one history; non-trivial = it contains at least one observed outcome other than 'success' (skip, failure, kill, decline...); distinct by (shape, operation/outcome sequence).",
-		"C05": "same engine, completeness direction: after a plain run, the next plain run must skip iff fingerprint, generates and status are unchanged and --force is absent; otherwise it must run. Matrix method x {sources, +generates, +status, both} x change kind {edit, touch, add, remove, rename, cross-dir move, unmatched edit, delete generates, status failing, none} x 6 glob/exclude shapes (all cells in thorough, a seed-chosen third in quick) plus random histories. checksum: touch must NOT run; timestamp: touch must run. Non-trivial/distinct as C04.",
+		"C05": "same engine, completeness direction: after a plain run, the next plain run must skip iff fingerprint, generates and status are unchanged and --force is absent; otherwise it must run. Matrix method x {sources, +generates, +status, both} x change kind {edit, touch, add, remove, rename, cross-dir move, unmatched edit, delete generates, status failing, none} x 6 glob/exclude shapes (all 480 cells in both tiers) plus random histories. checksum: touch must NOT run; timestamp: touch must run. Non-trivial/distinct as C04.",
 		"C12": "same engine: before/after snapshots (name, size, sha256, mtime; .task included) around every read-only invocation (--dry, --status, --list, --list-all, each with --json, --summary) and an empty command trace; the continuation's run/skip must be what the monitor expects without the read-only step (the expectation is a function of plain invocations only). Every read-only mode at every position of a 6-step skeleton x 2 methods x 4 task shapes (all in thorough, half in quick) plus random histories. Non-trivial/distinct as C04.",
 	}[id]
 	if id == "C04" {
 		level = "fault_enumeration"
 		t := exhaustiveKill && part.Counters["kill_point_not_reached"] == 0
 		exh = &t
+	}
+	if n := part.Counters["generated_project_does_not_load"]; n > 0 {
+		fmt.Printf("BROKEN property=%s %d invocations met a generated project that does not load (harness defect)\n", id, n)
+		defer os.Exit(2)
 	}
 	rep := h.Report{ID: id, Level: level, Rule: rule, Start: start, Exhaustive: exh, MinEvents: 100, EventsKey: "plain_invocations",
 		Extra: map[string]any{"exhaustive_scope": "C04 only: command-boundary SIGKILL points and failing positions of the enumerated bodies; everything else is sampled"},
